@@ -212,6 +212,8 @@ def b_dict(I, x=None, **kw):
                 h = getattr(x, "pyvc_todict", None)
                 if h is not None:
                     return h(I)
+                if isinstance(x, ZipV) and len(x.parts) == 2 and getattr(x.parts[0], "pyvc_asarray", None) is not None:
+                    x = ZipV([x.parts[0].pyvc_asarray(I), x.parts[1]])
                 if isinstance(x, ZipV) and len(x.parts) == 2 and isinstance(x.parts[0], Arr) \
                         and isinstance(x.parts[1], (Arr, RangeV)):
                     # dict(zip(keys, values)) with symbolic length: kept structurally (positional view)
